@@ -39,6 +39,8 @@ def gen(rnd, complete=None):
         q = rnd.choice([0.3, 0.5, 0.8])
         edges = [(a, b) for a in range(n) for b in range(a + 1, n) if rnd.random() < q]
     rnd.shuffle(edges)
+    if not comp and rnd.random() < 0.15:
+        v = rnd.randrange(n); edges.insert(rnd.randrange(len(edges) + 1), (v, v))        # an oscillator coupled to itself
     period = rnd.choice([1.0, 1.0, 2.0, 0.5, 1.5, 0.7, 3.0])
     if rnd.random() < 0.25: period = rnd.choice([0.333333, 1 / 3, 0.7142843, 0.123456, 1.2345678, 2.000003])      # not multiples of the 1e-5 grid firing times are rounded to
     b = rnd.choice([1.0, 2.0, 0.5, 3.0])
